@@ -2,10 +2,12 @@
 # usage: try_seed.sh <seed name under /verif/seeded> <Cxx> [<Cxx>...]   - run checks against a scratch copy of /repo HEAD + the seeded patch
 # (scratch worktree outside /repo and /verif; evidence and replays of these runs go to a scratch dir, never to /verif/evidence)
 NAME=$1; shift
+PATCH=/verif/seeded/$NAME/patch.diff
+if [ -f "$NAME" ]; then PATCH=$NAME; NAME=$(basename $(dirname $(dirname $PATCH)))_cand; fi   # also accepts a path <dir>/SEED/patch.diff
 WT=/tmp/wt/try_$NAME; OUT=/tmp/wt/try_$NAME.out; mkdir -p $OUT
 git -C /repo worktree remove --force $WT >/dev/null 2>&1
 git -C /repo worktree add --detach $WT HEAD >/dev/null 2>&1 || exit 3
-( cd $WT && git apply /verif/seeded/$NAME/patch.diff ) || { echo "patch does not apply"; git -C /repo worktree remove --force $WT; exit 3; }
+( cd $WT && git apply $PATCH ) || { echo "patch does not apply"; git -C /repo worktree remove --force $WT; exit 3; }
 for P in "$@"; do
   VERIF_REPO=$WT VERIF_EVIDENCE_DIR=$OUT VERIF_REPLAY_DIR=$OUT/replays /verif/check $P --tier ${TIER:-quick} > $OUT/$P.log 2>&1; RC=$?
   echo "seed=$NAME check=$P exit=$RC violations=$(grep -c '^VIOLATION' $OUT/$P.log) reproduced=$(grep '^VIOLATION' $OUT/$P.log | grep -vc no-failing-input-found)"
